@@ -6,6 +6,10 @@ import "verif/engine/interp"
 // combinators): every integer is an unconstrained 64-bit value, only table/list sizes are
 // bounded.
 func unitJobsC04(c *Check) {
+	if reducedRun {
+		c.Bounds = append(c.Bounds, "REDUCED: the NewLines accessor does not compile against this tree; the unit obligations are not decided")
+		return
+	}
 	N := 5
 	if c.Tier == "thorough" {
 		N = 8
@@ -25,6 +29,10 @@ func unitJobsC04(c *Check) {
 }
 
 func unitJobsC05(c *Check) {
+	if reducedRun {
+		c.Bounds = append(c.Bounds, "REDUCED: the accessors do not compile against this tree; the unit obligations are not decided")
+		return
+	}
 	// which -> (forms of first argument, forms of last argument); 1 = not applicable
 	nodeF, listF := 3, 4
 	if c.Tier == "thorough" {
